@@ -415,6 +415,7 @@ pub const SWEEPS: &[(&str, &str, u64)] = &[
     ("open-crafted", "C16", 4),
     ("range", "C17", 16),
     ("chunking", "C18", 2),
+    ("sizes", "C18", 16),
     ("pathbij", "C18", 1),
 ];
 
@@ -451,7 +452,9 @@ pub fn run_sweep(name: &str, tier: &str, chunk: u64, nchunks: u64, res: &mut Wor
     let mut report = |res: &mut WorkerResult, sweep: &str, input: Value, f: Option<Finding>| {
         res.count("cases", 1);
         if let Some((prop, oracle, detail)) = f {
-            let mut v = Violation::new(&[prop], &oracle, detail);
+            // a blob filed under a name that is not the hash of its bytes is also a C06 matter
+            let props: Vec<&str> = if prop == "C18" && matches!(oracle.as_str(), "identity" | "file-content" | "file-placement") { vec![prop, "C06"] } else { vec![prop] };
+            let mut v = Violation::new(&props, &oracle, detail);
             v.replay = json!({"engine": "input", "sweep": sweep, "input": input});
             res.violate(v);
         }
@@ -781,6 +784,60 @@ pub fn run_sweep(name: &str, tier: &str, chunk: u64, nchunks: u64, res: &mut Wor
             }
             res.completed.push(format!("chunking: all contents of length <= {maxn} over {{0,1}} x all compositions x an empty write inserted at every position; 20000-byte content split at 1,4096,8191,8192,8193,16384,19999"));
         }
+        "sizes" => {
+            // the size ladder: every power of two up to 16 MiB (thorough: 128 MiB) and its two neighbours, 3 * 2^e, 5 and 10 MiB,
+            // powers of ten - sizes at which a threshold in the write path would sit - each written in one call, in four
+            // near-equal calls, and in 1 MiB (<= 1 MiB: 4 KiB) pieces
+            let top = if quick { 24 } else { 27 };
+            let mut sizes: Vec<usize> = Vec::new();
+            for e in 0..=top {
+                for d in [-1i64, 0, 1] {
+                    let v = (1i64 << e) + d;
+                    if v >= 0 {
+                        sizes.push(v as usize);
+                    }
+                }
+                if (10..=top - 2).contains(&e) {
+                    sizes.push(3usize << e);
+                }
+            }
+            sizes.extend([5usize << 20, 10 << 20, 1_000, 10_000, 100_000, 1_000_000, 10_000_000]);
+            sizes.sort();
+            sizes.dedup();
+            let total = sizes.len();
+            for (i, len) in sizes.into_iter().enumerate() {
+                if i as u64 % nchunks != chunk {
+                    continue;
+                }
+                let data = pattern(len);
+                let mut plans: Vec<Vec<usize>> = vec![if len == 0 { vec![] } else { vec![len] }];
+                if len >= 4 {
+                    let q = len / 4;
+                    plans.push(vec![q, q, q, len - 3 * q]);
+                }
+                if len > (1 << 20) {
+                    let mut v = vec![1usize << 20; len >> 20];
+                    if len % (1 << 20) != 0 {
+                        v.push(len % (1 << 20));
+                    }
+                    plans.push(v);
+                } else if len > 8192 {
+                    let mut v = vec![4096usize; len / 4096];
+                    if len % 4096 != 0 {
+                        v.push(len % 4096);
+                    }
+                    plans.push(v);
+                }
+                for pl in plans {
+                    let f = check_chunking(&mut ctx, &data, &pl);
+                    let shown: Value = if pl.len() > 8 { json!(format!("{} x {} (+ remainder)", pl.len(), pl[0])) } else { json!(pl) };
+                    report(res, "sizes", json!({"len": len, "chunks": shown, "plan": if pl.len() > 8 { json!(pl[0]) } else { json!(null) }}), f);
+                }
+            }
+            if chunk == 0 {
+                res.completed.push(format!("sizes: {total} lengths (2^e and 2^e +- 1 for e <= {top}, 3 * 2^e, 5 and 10 MiB, powers of ten) x (one write, four near-equal writes, 1 MiB or 4 KiB pieces)"));
+            }
+        }
         "pathbij" => {
             let mut seen = std::collections::HashMap::new();
             for base in hashes() {
@@ -844,7 +901,8 @@ pub fn run(tier: &str, slice: (u64, u64), _seed: u64, prop: &str) -> WorkerResul
     let mut res = WorkerResult::new("input");
     let mut j = 0u64;
     for (name, p, chunks) in SWEEPS {
-        if *p != prop {
+        // C06 borrows the size ladder (its findings about a blob filed under a wrong name carry both tags)
+        if *p != prop && !(prop == "C06" && *name == "sizes") {
             continue;
         }
         for c in 0..*chunks {
@@ -936,6 +994,23 @@ pub fn replay(case: &Value) -> Vec<Violation> {
                 _ => vec![1; 300],
             };
             check_chunking(&mut ctx, &content, &cuts)
+        }
+        "sizes" => {
+            let i = &case["input"];
+            let len = i["len"].as_u64().unwrap() as usize;
+            let cuts: Vec<usize> = match (&i["chunks"], i["plan"].as_u64()) {
+                (Value::Array(a), _) => a.iter().map(|x| x.as_u64().unwrap() as usize).collect(),
+                (_, Some(piece)) => {
+                    let piece = piece as usize;
+                    let mut v = vec![piece; len / piece];
+                    if len % piece != 0 {
+                        v.push(len % piece);
+                    }
+                    v
+                }
+                _ => vec![len],
+            };
+            check_chunking(&mut ctx, &pattern(len), &cuts)
         }
         "pathbij" => {
             let h: [u8; 32] = unhex(case["input"].as_str().unwrap()).try_into().unwrap();
